@@ -40,7 +40,7 @@ theorem step_discipline (cfg : Config) (hnew : cfg.matches .new = true) (hundo :
     ∃ P', (⟨s.db.libRef.id, P⟩ : CS).run (processBlock cfg s b none).2.1 =
         some ⟨(processBlock cfg s b none).1.db.libRef.id, P'⟩ ∧
       Inv (processBlock cfg s b none).1 P' :=
-  let ⟨P', h1, h2, _, _⟩ := processBlock_step cfg hnew hundo hirr s P b hI hok.1 hok.2.1 hok.2.2.1 hok.2.2.2
+  let ⟨P', h1, h2, _, _, _⟩ := processBlock_step cfg hnew hundo hirr s P b hI hok.1 hok.2.1 hok.2.2.1 hok.2.2.2
   ⟨P', h1, h2⟩
 
 theorem runHistory_cons (cfg : Config) (s : FState) (b : Blk) (r : List Blk) :
@@ -100,7 +100,7 @@ theorem step_discipline_consistent (cfg : Config) (hnew : cfg.matches .new = tru
     ∃ P' F', (⟨s.db.libRef.id, P⟩ : CS).run (processBlock cfg s b none).2.1 =
         some ⟨(processBlock cfg s b none).1.db.libRef.id, P'⟩ ∧
       Inv (processBlock cfg s b none).1 P' ∧ Inv2 U F' (processBlock cfg s b none).1.db := by
-  obtain ⟨P', h1, h2, _, h4⟩ := processBlock_step cfg hnew hundo hirr s P b hI
+  obtain ⟨P', h1, h2, _, h4, _⟩ := processBlock_step cfg hnew hundo hirr s P b hI
     (sentClosed_of_inv2 U F s.db hI.wf hI.heights hJ) (hU.wf b.id b hbU) (hb_of_inv2 U hU F s.db hJ b hbU) hL
   obtain ⟨F', hJ'⟩ := h4 U F hU hJ hbU
   exact ⟨P', F', h1, h2, hJ'⟩
